@@ -340,14 +340,15 @@ def run(ctx, eng):
                        'the key\'s queue (every accepted value must be '
                        'queued, even one equal to the current value)')
             continue
-        i = p.index(aps[0])
-        conds = [x for x in p.events[:i] if x.kind == 'assume']
-        extra = [cm.show0(x.cond) for x in conds
-                 if '_validate_setting' not in cm.show0(x.cond)]
-        if extra:
-            bad.append('the append depends on %s' % extra)
+        # (every normally returning path appends: no condition can skip
+        # it.)  A key seen for the first time - KeyError handler or a
+        # failed membership test - starts its queue with the None marker
         new_q = any(e.kind == 'catch' and 'KeyError' in e.names
-                    for e in p.events)
+                    for e in p.events) or any(
+            e.kind == 'assume' and e.cond[0] == 'not' and
+            e.cond[1][0] == 'in' and e.cond[1][1] == ('p', 'key') and
+            cm.attr_chain(e.cond[1][2]) == 'self._settings'
+            for e in p.events)
         if new_q:
             st = [e for e in p.events if e.kind == 'store' and
                   cm.store_base_attr(e) == '_settings']
